@@ -129,7 +129,7 @@ def job32(mn):
                 try:
                     got = apimap.call_encoder(asm, mn, f)
                     ok = True
-                except ValueError:
+                except Exception:   # any exception is a refusal (today always ValueError)
                     ok = False
                 near = _near_edge32(mn, field, v)
                 if cls == REFUSE and ok:
@@ -159,7 +159,7 @@ def job32(mn):
                         g[field] = n
                         if got != expected32(mn, g):
                             res.fail('wrongreg:%s:%s' % (mn, field), '%s %r encoded as 0x%08x' % (mn, f, got), {'kind': 'api', 'mn': mn, 'fields': f, 'expect': ACCEPT})
-                    except ValueError:
+                    except Exception:   # any exception is a refusal (today always ValueError)
                         res.fail('refuses:%s:%s' % (mn, field), '%s refuses documented register spelling %r' % (mn, sp), {'kind': 'api', 'mn': mn, 'fields': f, 'expect': ACCEPT})
             for bad in BAD_REGS:
                 f = dict(others)
@@ -169,7 +169,7 @@ def job32(mn):
                 try:
                     got = apimap.call_encoder(asm, mn, f)
                     res.fail('accepts:%s:%s' % (mn, field), '%s accepts register %r and encodes 0x%08x' % (mn, bad, got), {'kind': 'api', 'mn': mn, 'fields': f, 'expect': REFUSE})
-                except ValueError:
+                except Exception:   # any exception is a refusal (today always ValueError)
                     pass
     res.sample({'mnemonic': mn, 'probed_fields': list(names)})
     return res
@@ -232,7 +232,7 @@ def job16(mn):
             try:
                 got = fn(*[f[k] for k in names])
                 ok = True
-            except ValueError:
+            except Exception:   # any exception is a refusal (today always ValueError)
                 ok = False
             near = has_imm and (abs(imm - lo) <= 2 * mult or abs(imm - hi) <= 2 * mult or abs(imm) <= mult)
             near = near or any(r in (-1, 0, 2, 7, 8, 15, 16, 31, 32) for r in regs)
@@ -261,7 +261,7 @@ def job16(mn):
             try:
                 got = fn(*[f[k] for k in names])
                 res.fail('accepts:%s' % mn, '%s accepts register %r (0x%04x)' % (mn, bad, got), {'kind': 'api', 'mn': mn, 'fields': f, 'expect': REFUSE})
-            except ValueError:
+            except Exception:   # any exception is a refusal (today always ValueError)
                 pass
     res.sample({'mnemonic': mn, 'registers': '-2..40' if regvals[0] == -2 else regvals, 'immediates': len(imms)})
     return res
@@ -440,6 +440,7 @@ def run(tier):
     jobs = [(job32, (mn,)) for mn in sorted(rvref.BASE)] + [(job16, (mn,)) for mn in rvref.C_MNEMONICS]
     jobs += [(compress_text_job, (mn,)) for mn in sorted(COMP_CONFIGS)]
     jobs += [(odd_label_job, ())]
+    jobs += [(opt_job, ('job16', mn)) for mn in rvref.C_MNEMONICS] + [(opt_job, ('job32', mn)) for mn in OPT_BASE]
     chk.merge(env.run_shards(_dispatch, jobs))
     api = chk.res.evaluations
     n_text = {'quick': 20000, 'thorough': 500000}[tier]
@@ -449,7 +450,7 @@ def run(tier):
     chk.extra['text_probes'] = chk.res.evaluations - api
     chk.rule = ('API: every operand of all 66 + 27 mnemonics probed over [lo-2*span, hi+2*span] (all residues; for U/J a dense '
                 'window round both ends and zero plus a stride) and +-2^k+-1 up to 2^33, registers -2..40 and bad spellings, three '
-                'legal settings of the other operands (c.*: full register x immediate product) - complete over that window; text: '
+                'legal settings of the other operands (c.*: full register x immediate product) - complete over that window (all c.* mnemonics and 13 base mnemonics, one per format, again in `python -O` children); text: '
                 '%d one-line programs x both compress settings, and every compression-candidate register setting of addi/andi/lw/sw/lui/jal/'
                 'beq/bne/jalr/shifts x a dense immediate window with -c (documented operands must stay accepted). non-trivial = probe within two scale units of an interval end, or with '
                 'an edge/illegal register; API probes distinct by construction, text probes by (line, mode)' % n_text)
@@ -461,6 +462,16 @@ def _dispatch(fn, args):
     return fn(*args)
 
 
+OPT_BASE = ['addi', 'lw', 'sw', 'beq', 'lui', 'jal', 'jalr', 'slli', 'csrrwi', 'fence', 'amoadd.w', 'lr.w', 'add']
+
+
+def opt_job(fname, mn):
+    """The same API probes once more in a `python -O` child: validation that lives in assert statements is gone there."""
+    r = env.run_optimized('checks.c06', fname, (mn,))
+    r.samples = []
+    return r
+
+
 def replay(path):
     with open(path) as f:
         body = json.load(f)
@@ -468,12 +479,20 @@ def replay(path):
     asm = env.load_asm()
     why = None
     exp = case.get('expect')
+    if case['kind'] == 'api' and case.get('optimize'):
+        r = opt_job('job16' if case['mn'].startswith('c.') else 'job32', case['mn'])
+        if r.failures:
+            print('VIOLATION property=%s replay=%s' % (PROP, path))
+            print('  ' + r.failures[0]['what'][:600])
+            return env.EXIT_VIOLATION
+        print('replay holds: %s' % path)
+        return env.EXIT_OK
     if case['kind'] == 'api':
         mn, f = case['mn'], case['fields']
         try:
             got = apimap.call_encoder(asm, mn, f)
             ok = True
-        except ValueError:
+        except Exception:   # any exception is a refusal (today always ValueError)
             ok = False
         if exp == REFUSE and ok:
             why = '%s %r accepted (0x%x)' % (mn, f, got)
